@@ -58,20 +58,21 @@ class G:
         if r < 0.78: return '<text:s text:c="%d"/>' % self.rng.randint(1, 3) + self.text(1)
         if r < 0.84: return '<text:tab/>' + self.text(1)
         if r < 0.88: return '<text:line-break/>' + self.text(1)
-        if r < 0.97:
-            cls = self.rng.choice(['footnote', 'endnote'])
-            old = self.sink; self.sink = self.notes if old is None else old       # note bodies are collected at the end of the output
-            # a note body is a sequence of paragraphs and lists; a citation may be empty (the mark is then the text:label)
-            mk_list = lambda: '<text:list><text:list-item><text:p>%s</text:p></text:list-item></text:list>' % self.text()
-            where = self.rng.choice(['none', 'none', 'none', 'first', 'last'])
-            body = mk_list() if where == 'first' else ''                   # (generated in document order: the tokens are compared in order)
-            body += ''.join('<text:p>%s</text:p>' % self.text() for _ in range(self.rng.choice([1, 1, 2, 3])))
-            if where == 'last': body += mk_list()
-            self.sink = old
-            cit = self.rng.choice(['1', '1', '*', '2', 'i', ''])      # marks repeat, as they do across footnotes and endnotes
-            return ('<text:note text:id="ftn%d" text:note-class="%s"><text:note-citation%s>%s</text:note-citation><text:note-body>%s</text:note-body></text:note>'
-                    % (self.k, cls, ' text:label="*"' if cit == '' else '', cit, body))
+        if r < 0.97: return self.inline_note()
         return self.text() + self.inline(depth + 1)
+    def inline_note(self):
+        cls = self.rng.choice(['footnote', 'endnote'])
+        old = self.sink; self.sink = self.notes if old is None else old       # note bodies are collected at the end of the output
+        # a note body is a sequence of paragraphs and lists; a citation may be empty (the mark is then the text:label)
+        mk_list = lambda: '<text:list><text:list-item><text:p>%s</text:p></text:list-item></text:list>' % self.text()
+        where = self.rng.choice(['none', 'none', 'none', 'first', 'last'])
+        body = mk_list() if where == 'first' else ''                   # (generated in document order: the tokens are compared in order)
+        body += ''.join('<text:p>%s</text:p>' % self.text() for _ in range(self.rng.choice([1, 1, 2, 3])))
+        if where == 'last': body += mk_list()
+        self.sink = old
+        cit = self.rng.choice(['1', '1', '*', '2', 'i', ''])      # marks repeat, as they do across footnotes and endnotes
+        return ('<text:note text:id="ftn%d" text:note-class="%s"><text:note-citation%s>%s</text:note-citation><text:note-body>%s</text:note-body></text:note>'
+                % (self.k, cls, ' text:label="*"' if cit == '' else '', cit, body))
     def para(self):
         return '<text:p text:style-name="%s">%s</text:p>' % (self.rng.choice(['P1', 'Standard', 'P&amp;2'] + HEADING_STYLES[self.k % len(HEADING_STYLES):][:1]), ''.join(self.inline() for _ in range(self.rng.randint(1, 3))))
     def sublist(self, depth):
@@ -119,6 +120,8 @@ def make_doc(rng, kind='text', i=0):
     if kind == 'text':
         body = ''.join(g.block() for _ in range(rng.randint(0, 3)))
         body += g.block(r=FORCED[i % len(FORCED)]) + g.block(r=0.5, level=i % 10 + 1)
+        if i % 5 == 3:                       # a dozen notes in a row: they are numbered, and numbers sort differently as strings
+            body += '<text:p>%s</text:p>' % ''.join(g.inline_note() for _ in range(12))
         body += ''.join(g.block() for _ in range(rng.randint(0, 2)))
     else: body = ''
     meta = ('<meta:generator>Other/1.0</meta:generator><dc:title>%s</dc:title><dc:language>%s</dc:language><dc:creator>%s</dc:creator><meta:keyword>%s</meta:keyword>'
